@@ -20,4 +20,7 @@ CASES = [
     dict(expect="silent", desc="rename local flag", edits=[dict(file=D, old="dispose = False", new="should_run = False"),
          dict(file=D, old="                dispose = True", new="                should_run = True"),
          dict(file=D, old="        if dispose:", new="        if should_run:")]),
+    dict(expect="fire", desc="seed C25/3: action run under the lock, flag set afterwards", names="T2-effect-on-winning-path", edits=[dict(file="reactivex/disposable/disposable.py",
+         old="        dispose = False\n        with self.lock:\n            if not self.is_disposed:\n                dispose = True\n                self.is_disposed = True\n\n        if dispose:\n            self.action()",
+         new="        with self.lock:\n            if self.is_disposed:\n                return\n\n            self.action()\n            self.is_disposed = True")]),
 ]
